@@ -18,6 +18,10 @@ CLAIMS = {
  "C11": ("model_checking", "Real SSA of Equal on two independent symbolic JSON values with symbolic representations: on every path the result must equal JSON value equality (exact rational comparison of numbers, unordered objects, ordered arrays); panics are violations. Reflexivity/symmetry/transitivity follow within the bound.", "§6 C11"),
  "C12": ("model_checking", "(a) hash law: hashValue on two symbolic values under one symbolic seed, maphash modelled as a chain of uninterpreted mixing functions: JSON-equal values must hash equal for every hash function and seed; (b) uniqueItems on symbolic arrays of mixed representations: verdict <=> no two elements are JSON-equal, over all seeds and collision patterns; (c) enum/const whose listed values are themselves symbolic: verdict <=> JSON equality with a listed value.", "§6 C12"),
  "C15": ("model_checking", "ApplyDefaults (real SSA, applied twice per path) on a symbolic instance: the inserted (location, key, value) triples are compared by SMT queries with the specification's insertion conditions (never a required property, present values untouched, declared default recursively completed, created containers hold at least one default, idempotent); validateDefaults with every default value symbolic: nil exactly when each default satisfies its declaring subschema.", "§6 C15"),
+ "C10": ("model_checking", "Every feasible path of the harnesses that ends in a Go panic (explicit, assert, run-time error, reflect-model panic) or exhausts the step/depth budget is a violation candidate replayed natively under recover: Validate with every numeric Schema field symbolic incl. NaN/+-Inf and the full int range, instances in mixed representations over the structural skeletons of both drafts, ApplyDefaults on arbitrary JSON-shaped instances, Resolve over the reference topologies incl. missing documents.", "§6 C10"),
+ "C13": ("other", "Sufficient condition decided by symbolic execution (not by enumerating schedules): on every path of Validate (and ApplyDefaults, except for the caller's instance) no store targets memory that existed before the call (Resolved, Schema tree, side tables, package-level variables) unless through a sync.Map; calls that write only call-local memory cannot race. Violations are confirmed natively by deep before/after comparison or under the race detector.", "§6 C13"),
+ "C14": ("model_checking", "(a) the no-write premise of C13 extended to the instance; (b) Validate explored under every map iteration order (up to 4 keys per range) and with a symbolic hash seed/function: every path agrees with the order-independent reference verdict, hence the verdict is a function of schema and instance; native scaffold observations for Resolve purity and repeated Marshal.", "§6 C14"),
+ "C18": ("model_checking", "Non-interference by havoc: in every Schema node all documented non-asserting fields and Extra are unconstrained symbolic values while Validate runs on a symbolic instance; the reference semantics ignores them, so any influence is a satisfiable verdict query. The unknown-keyword / letter-case clause lives inside encoding/json and is covered only by a native enumeration of case variants (scaffold).", "§6 C18"),
 }
 
 ALL = [f"C{i:02d}" for i in range(1, 21)]
